@@ -59,7 +59,7 @@ def check_program(text):
 # ---------------------------------------------------------------------------
 # enumerated capture-pattern family
 
-ROLES = ["CM", "C", "M", "S", "F", "R", "L"]
+ROLES = ["CM", "C", "M", "S", "F", "R", "L", "RM", "RA"]
 
 
 def capture_program(roles):
@@ -73,8 +73,8 @@ def capture_program(roles):
 
     def level(i):
         if i == D:
-            reads = " ".join("(note! (list 'read%d v%d))" % (j, j) for j in range(D) if roles[j] not in ("R",)) + \
-                    " ".join("(note! (list 'rest%d v%d))" % (j, j) for j in range(D) if roles[j] == "R")
+            reads = " ".join("(note! (list 'read%d v%d))" % (j, j) for j in range(D) if roles[j] not in ("R", "RM", "RA")) + \
+                    " ".join("(note! (list 'rest%d v%d))" % (j, j) for j in range(D) if roles[j] in ("R", "RA"))
             return "(begin %s (for-each (lambda (f) (note! (f))) thunks) 'done)" % reads
         r = roles[i]
         v = "v%d" % i
@@ -98,6 +98,14 @@ def capture_program(roles):
             return "((lambda () %s))" % body
         if r == "R":
             return "((lambda (a%d . %s) (keep! (lambda () (length %s))) %s) %s %s)" % (i, v, v, inner, arg, " ".join(str(k) for k in range(i + 1)))
+        if r == "RM":
+            # rest parameter that is only assigned, never read; the call sits among sibling operands of its caller
+            return ("(let ((res (list ((lambda (a%d . %s) (set! %s 'assigned%d) %s) %s %s) 'sib-a%d 'sib-b%d))) (note! (cdr res)) (car res))"
+                    % (i, v, v, i, inner, arg, " ".join(str(k) for k in range(i % 3)), i, i))
+        if r == "RA":
+            # rest parameter read and assigned
+            return ("(let ((res (vector 'sib%d ((lambda (a%d . %s) (note! (list 'before%d %s)) (set! %s (cons a%d %s)) %s) %s %s) 'sib-c%d))) (note! (list (vector-ref res 0) (vector-ref res 2))) (vector-ref res 1))"
+                    % (i, i, v, i, v, v, i, v, inner, arg, " ".join(str(k) for k in range(i % 3)), i))
         if r == "L":
             body = "(define f%d (lambda () (+ %s 1))) (define %s %s) (note! (f%d)) %s" % (i, v, v, arg, i, inner)
             return "((lambda () %s))" % body
